@@ -30,6 +30,6 @@ extern ssize_t mpt_qpost(MPT_STRUCT(queue) *queue, size_t len)
 	total -= len;
 	queue->len += len;
 	
-	return total / len;
+	return len ? total / len : total;
 }
 
